@@ -55,6 +55,18 @@ def corpus():
     body = b"35=A|34=1|49=SENDER|52=20230919-07:13:26.808|56=TARGET|98=0|108=30|141=Y|".replace(b"|", SOH)
     t = b"8=FIX.4.4\x019=%d\x01" % len(body) + body
     fs.append(t + b"10=" + ref_checksum(t) + SOH)
+    # rare by chance: a valid frame whose CheckSum is exactly 000, one with 255, and one whose BodyLength is exactly 100
+    for want in (b"000", b"255"):
+        for i in range(3000):
+            f = ref_msg("D", "CLI", "SRV", 12, [(11, "k" * (i % 37) + chr(65 + i % 26) + str(i)), (55, "IBM")])
+            if f[-4:-1] == want:
+                fs.append(f)
+                break
+    for i in range(60):
+        f = ref_msg("D", "CLI", "SRV", 13, [(11, "L"), (58, "y" * i)])
+        if f.split(SOH)[1] == b"9=100":
+            fs.append(f)
+            break
     for f in fs:
         assert not ref_check_all(f), (f, ref_check_all(f))
     return fs
